@@ -16,6 +16,7 @@ mod c08;
 mod c09;
 mod c10;
 mod c11;
+mod c12;
 mod c14;
 mod c15;
 mod rpc;
@@ -84,6 +85,7 @@ fn main() {
             "C09" => c09::replay(&plan, &mut sum),
             "C10" => c10::replay(&plan, &mut sum),
             "C11" => c11::replay(&plan, &mut sum),
+            "C12" => c12::replay(&plan, &mut sum),
             "C14" => c14::replay(&plan, &mut sum),
             "C15" => c15::replay(&plan, &mut sum),
             "C19" => c19::replay(&plan, &mut sum),
@@ -108,6 +110,7 @@ fn main() {
             "C09" => c09::run_batch(seed, start, count, &tier, budget_ms, &mut sum),
             "C10" => c10::run_batch(seed, start, count, &tier, budget_ms, &mut sum),
             "C11" => c11::run_batch(seed, start, count, &tier, budget_ms, &mut sum),
+            "C12" => c12::run_batch(seed, start, count, &tier, budget_ms, &mut sum),
             "C14" => c14::run_batch(seed, start, count, &tier, budget_ms, &mut sum),
             "C15" => c15::run_batch(seed, start, count, &tier, budget_ms, &mut sum),
             "C19" => c19::run_batch(seed, start, count, &tier, budget_ms, &mut sum),
